@@ -1,6 +1,6 @@
 use crate::internal::category::Category;
 use crate::internal::codepage::CodePage;
-use crate::internal::column::Column;
+use crate::internal::column::{Column, ColumnType};
 use crate::internal::expr::Expr;
 use crate::internal::query::{Delete, Insert, Select, Update};
 use crate::internal::stream::{StreamReader, StreamWriter, Streams};
@@ -37,6 +37,7 @@ const STRING_DATA_TABLE_NAME: &str = "_StringData";
 const STRING_POOL_TABLE_NAME: &str = "_StringPool";
 
 const MAX_NUM_TABLE_COLUMNS: usize = 32;
+const MAX_STRING_COLUMN_WIDTH: usize = 255;
 
 // ========================================================================= //
 
@@ -605,6 +606,36 @@ impl<F: Read + Write + Seek> Package<F> {
                     );
                 }
                 column_names.insert(name);
+                // The column type bitfield only has eight bits for the width
+                // of a string column; a larger width would spill into the
+                // flag bits and change the column's type when read back.
+                if let ColumnType::Str(max_len) = column.coltype() {
+                    if max_len > MAX_STRING_COLUMN_WIDTH {
+                        invalid_input!(
+                            "Column {:?} has string width {}, but the \
+                             maximum is {} (use 0 for unlimited)",
+                            name,
+                            max_len,
+                            MAX_STRING_COLUMN_WIDTH
+                        );
+                    }
+                }
+                // Enum values are stored joined by semicolons, so a value
+                // that is empty or contains a semicolon would not be read
+                // back as the same list of values.
+                if let Some(values) = column.enum_values() {
+                    for value in values.iter() {
+                        if value.is_empty() || value.contains(';') {
+                            invalid_input!(
+                                "Column {:?} has enum value {:?}, but enum \
+                                 values must be nonempty and cannot contain \
+                                 a semicolon",
+                                name,
+                                value
+                            );
+                        }
+                    }
+                }
             }
         }
         if self.tables.contains_key(&table_name) {
